@@ -858,6 +858,11 @@ public:
 	}
 	bool compact()
 	{
+		/* content shared with array copies must not change */
+		content<item<T> > *d = this->_ref.instance();
+		if (!d || d->shared()) {
+			return false;
+		}
 		item<T> *space = 0;
 		long len = 0;
 		for (item<T> *pos = this->begin(), *to = this->end(); pos != to; ++pos) {
